@@ -159,7 +159,7 @@ extern "C" void vx_binop()
       if (!thrown) {
         verif_assert(r->type() == Value::type_numeric, "C03: an operation with a decimal operand yields a decimal");
         verif_assert(r->isNull() == anynull, "C03: decimal result is null exactly when an operand is null");
-#if VX_ORACLE != ORC_MOD
+#if VX_ORACLE != ORC_MOD && !defined(VX_NOVALUE)
         if (!anynull && !r->isNull()) {
           double e = VX_ORACLE == ORC_ADD ? x + y : VX_ORACLE == ORC_SUB ? x - y : VX_ORACLE == ORC_MUL ? x * y : x / y;
           verif_assert(same_double(*r->numeric(), e), "C03: decimal result is the IEEE-754 double result [solo]");
